@@ -18,8 +18,8 @@ LEAN_MODULES = ["Properties.C19", "Properties.Prov.Decorate", "Properties.CoreEv
 NEEDS_DTYPES = False
 LEVEL = "proof"
 RULE = (
-    "a generated family of 17 torch modules (1-3 tensor parameters, optional parameter, tuple return, multi-axis, literal-axis (left and right of the marker, named) and expression annotations using every operator and function of the grammar, named expressions, "
-    "free scope provider) x {eager, torch.jit.trace with positional and with keyword example inputs, torch.jit.script, torch.compile(backend='eager')} (thorough adds aot_eager) x "
+    "a generated family of 19 torch modules (1-3 tensor parameters, optional parameter, tuple return, multi-axis, literal-axis (left and right of the marker, named) and expression annotations using every operator and function of the grammar, named expressions, "
+    "free scope provider (also one whose mapping changes after the first call), a named group covering no axis) x {eager, torch.jit.trace with positional and with keyword example inputs, torch.jit.script, torch.compile(backend='eager')} (thorough adds aot_eager) x "
     "{conforming input: outputs torch.equal to the undecorated twin's; non-conforming input: the dltype error class under eager, script "
     "and compile}. non-trivial = every (module, mode, input kind) triple"
 )
@@ -114,6 +114,22 @@ class M17(torch.nn.Module):
     def forward(self, x: Annotated[torch.Tensor, dltype.FloatTensor["rgb=3 h w"]]) -> Annotated[torch.Tensor, dltype.FloatTensor["1 rgb h*w"]]:
         return x.reshape(1, 3, -1)
 
+class M18(torch.nn.Module):
+    DEC
+    def forward(self, x: Annotated[torch.Tensor, dltype.FloatTensor["*batch c"]], y: Annotated[torch.Tensor, dltype.FloatTensor["*batch c+1"]]) -> Annotated[torch.Tensor, dltype.FloatTensor["*batch c"]]:
+        return x + y[..., :-1]
+
+class Prov2:
+    k = 3
+    def get_dltype_scope(self):
+        return {"k": self.k}
+PROV2 = Prov2()
+
+class M19(torch.nn.Module):
+    DECQ
+    def forward(self, x: Annotated[torch.Tensor, dltype.FloatTensor["b k"]]) -> Annotated[torch.Tensor, dltype.FloatTensor["b k"]]:
+        return x * 3
+
 class M8(torch.nn.Module):
     DEC
     def forward(self, x: Annotated[torch.Tensor, dltype.FloatTensor["b c"]], m: Optional[Annotated[torch.Tensor, dltype.FloatTensor["b c"]]] = None) -> Annotated[torch.Tensor, dltype.FloatTensor["b c"]]:
@@ -129,10 +145,16 @@ def family():
     dltype = impl.dltype
     dec_ns: dict = {}
     und_ns: dict = {}
-    exec(SRC.replace("DECP", "@dltype.dltyped(PROV)").replace("DEC", "@dltype.dltyped()"), dec_ns)  # noqa: S102
-    exec(SRC.replace("DECP", "").replace("DEC", ""), und_ns)  # noqa: S102
+    exec(SRC.replace("DECP", "@dltype.dltyped(PROV)").replace("DECQ", "@dltype.dltyped(PROV2)").replace("DEC", "@dltype.dltyped()"), dec_ns)  # noqa: S102
+    exec(SRC.replace("DECP", "").replace("DECQ", "").replace("DEC", ""), und_ns)  # noqa: S102
     g = torch.Generator().manual_seed(0)
     r = lambda *s: torch.rand(*s, generator=g)  # noqa: E731
+    # M19's provider changes what it returns after the decorated forward has run once: the value at call time counts
+    try:
+        dec_ns["M19"]()(r(2, 3))
+    except Exception:  # noqa: BLE001  (reported through the family below if the decoration itself is broken)
+        pass
+    dec_ns["PROV2"].k = 5
     inputs = {
         "M1": ((r(2, 3),), (r(2, 3, 4),)),
         "M2": ((r(2, 3), r(3, 4)), (r(2, 3), r(4, 4))),
@@ -151,6 +173,8 @@ def family():
         "M15": ((r(2, 4, 3),), (r(2, 4, 2),)),
         "M16": ((r(5, 2, 4, 3), r(2, 6, 4)), (r(5, 2, 4, 3), r(3, 6, 4))),
         "M17": ((r(3, 2, 5),), (r(4, 2, 5),)),
+        "M18": ((r(3), r(4)), (r(3), r(2, 4))),          # the group covers no axis at all / covers none in x and one in y
+        "M19": ((r(2, 5),), (r(2, 3),)),
     }
     return dec_ns, und_ns, inputs
 
